@@ -3,6 +3,7 @@
 package zzverif
 
 import (
+	"regexp"
 	"encoding/json"
 	"fmt"
 	"math/big"
@@ -12,6 +13,8 @@ import (
 )
 
 type rat = big.Rat
+
+var sdkDenomRe = regexp.MustCompile(`^[a-zA-Z][a-zA-Z0-9/:._-]{2,127}$`)
 
 type assumeFailed struct{}
 
